@@ -539,6 +539,60 @@ def determinism_check(r, d, k, n_seeds):
     return why
 
 
+def argument_check(r):
+    """stage functions must not change the containers they are handed (the considered-variant set of one minor-stage call is
+    shared by every candidate of the call). Directed instance on the toy database: candidate A = two complete copies with a
+    novel function-altering variant upstream of intron 2; candidate B = the left fusion next to the deletion, whose structure
+    has no gene copy of that region at all"""
+    import copy as _copy
+    from aldy import minor
+    from aldy.gene import Gene, Mutation
+    from aldy.profile import Profile
+    from aldy.coverage import Coverage
+    from aldy.solutions import CNSolution, SolvedAllele, MajorSolution
+    gene = Gene(os.path.join(lib.REPO, "aldy/tests/resources/toy.yml"), genome=r.choice(["hg19", "hg38"]))
+    why = []
+    fus = [c for c, cf in gene.cn_configs.items() if str(cf.kind).split(".")[-1] == "LEFT_FUSION"]
+    if not fus or "1" not in gene.alleles:
+        return why, 0
+    cnB = CNSolution(gene, 0, [fus[0]])
+    partial = [a for a, al in gene.alleles.items() if al.cn_config == fus[0]]
+    carried1 = set(gene.alleles["1"].func_muts) | {m for mi in gene.alleles["1"].minors.values() for m in mi.neutral_muts}
+    cand = [Mutation(*m) for m in gene.mutations if gene.is_functional(m) and cnB.position_cn(m[0]) == 0 and Mutation(*m) not in carried1 and ">" in m[1]]
+    if not cand or not partial:
+        return why, 0
+    novel = r.choice(cand)
+    table = {novel.pos: {"_": [(60, 60)] * 10, novel.op: [(60, 60)] * 10}}
+    for m in gene.mutations:
+        table.setdefault(m[0], {"_": [(60, 60)] * 20})
+    cov = Coverage(gene, Profile("demo"), None, table, None, {})
+    A = MajorSolution(0, collections.Counter({SolvedAllele(gene, "1"): 2}), CNSolution(gene, 0, ["1", "1"]), [novel])
+    B = MajorSolution(0, collections.Counter({SolvedAllele(gene, partial[0]): 1}), cnB, [])
+    orig = minor.solve_minor_model
+    n_calls = [0]
+
+    def guarded(gene_, coverage_, major_sol, alleles_list, mutations, solver, max_solutions=1):
+        before = (_copy.copy(alleles_list), _copy.copy(mutations))
+        out = orig(gene_, coverage_, major_sol, alleles_list, mutations, solver, max_solutions)
+        n_calls[0] += 1
+        if list(before[0]) != list(alleles_list):
+            why.append(f"ARGS solve_minor_model changed its argument alleles_list in place while refining {major_sol._solution_nice()}")
+        if set(before[1]) != set(mutations):
+            why.append(f"ARGS solve_minor_model changed the considered-variant set it was handed in place while refining {major_sol._solution_nice()} "
+                       f"[{major_sol.cn_solution._solution_nice()}]: {sorted(str(m) for m in set(before[1]) ^ set(mutations))} - the set is shared by every candidate of the call")
+        return out
+
+    minor.solve_minor_model = guarded
+    try:
+        for lst in ([A, B], [B, A]):
+            minor.estimate_minor(gene, cov, lst, "cbc")
+    except Exception as e:
+        why.append(f"estimate_minor raised {type(e).__name__}: {e}")
+    finally:
+        minor.solve_minor_model = orig
+    return why, n_calls[0]
+
+
 def sibling_check(r, gd):
     """refine candidates alone / together / permuted"""
     from aldy import major, minor
@@ -657,6 +711,15 @@ def tie(ctx):
         if why:
             violations.append({"why": why[0], "input": {"gene": gd, "index": i},
                                "signature": "c14:candidate_order_dependence" if why[0].startswith("ORDER") else "c14:sibling_dependence"})
+    for k in range(2 if quick else 6):
+        try:
+            why, n = argument_check(r)
+        except Exception as e:
+            why, n = [f"argument check raised {type(e).__name__}: {e}"], 0
+        stats["argument_checks"] += 1
+        stats["argument_check_stage_calls"] += n
+        if why:
+            violations.append({"why": why[0], "input": {"index": k, "kind": "stage_arguments"}, "signature": "c14:stage_changes_its_arguments"})
     d = sim.scratch_dir()
     try:
         for k in range(3 if quick else 25):
